@@ -562,6 +562,10 @@ class NP2Converter:
                     chunk[:, self.shank_info[sh]["chns"]] = srs[first:last, :]
                 else:
                     chunk[:, self.shank_info[sh]["chns"][:-1]] = srs[first:last, :-1]
+                    # every shank file carries its own copy of the sync channel: verify that copy as well
+                    assert np.array_equal(
+                        expected[:, -1], srs[first:last, -1]
+                    ), "data in original file and split files do no match"
             assert np.array_equal(
                 expected, chunk
             ), "data in original file and split files do no match"
